@@ -45,7 +45,13 @@ type World struct {
 	Tier   string
 	logbuf bytes.Buffer
 	seq    int
+	hooks  []func()
 }
+
+// AfterEachStep registers an invariant hook that runs on the scheduler goroutine between
+// scheduler steps (all tasks parked). The hook may call accessors of the system under test;
+// if a lock it needs is held by a parked task the observation is skipped for that step.
+func (w *World) AfterEachStep(f func()) { w.hooks = append(w.hooks, f) }
 
 // Violate records an oracle failure.
 func (w *World) Violate(rule, sig, format string, args ...interface{}) {
@@ -184,6 +190,11 @@ func Execute(t *testing.T, tape *simrt.Tape, tier string, keepLog bool, maxSim t
 	log.SetFlags(0)
 	simrt.TakeProbes()
 	cfg := simrt.Config{Tape: tape, KeepLog: keepLog, MaxSimTime: maxSim, MaxSteps: maxSteps, OnTeardown: w.Net.Shutdown}
+	cfg.AfterStep = func() {
+		for _, h := range w.hooks {
+			simrt.Inspect(h)
+		}
+	}
 	// swarm: exploration strategy of this run
 	switch tape.Draw(8) {
 	case 0:
